@@ -16,8 +16,8 @@ for item in "$@"; do
   ( cd $SC/verif && find . -mindepth 1 -maxdepth 1 ! -name harness -exec rm -rf {} + ; mkdir -p harness; find harness -mindepth 1 -maxdepth 1 ! -name target -exec rm -rf {} + )
   git -C /verif archive HEAD | tar -x -C $SC/verif
   ( cd $SC/repo && git apply "$PATCH" ) || { echo "SEEDTEST $PATCH DOES-NOT-APPLY"; continue; }
-  find $SC/verif/harness -name Cargo.toml -not -path '*/target/*' -exec sed -i "s|\"/repo/|\"$SC/repo/|g" {} +
-  sed -i "s|/repo/Cargo.lock|$SC/repo/Cargo.lock|g" $SC/verif/lib/vlib.py
+  find $SC/verif/harness $SC/verif/extra/harness -name Cargo.toml -not -path '*/target/*' -exec sed -i "s|\"/repo/|\"$SC/repo/|g" {} +
+  sed -i "s|/repo/Cargo.lock|$SC/repo/Cargo.lock|g" $SC/verif/lib/vlib.py $SC/verif/lib/xlib.py
   rm -f $SC/verif/harness/Cargo.lock
   for c in ${CHECKS//,/ }; do
     ( cd $SC/verif && ./check $c --tier quick > $SC/$c.log 2>&1; echo "SEEDTEST $(basename $(dirname $PATCH)) of $(basename $(dirname $(dirname $PATCH))) $c rc=$? violations=$(grep -c '^VIOLATION' $SC/$c.log) drift=$(grep -c '^DRIFT' $SC/$c.log)"; grep -E '^VIOLATION|^TOOL-ERROR' -A1 $SC/$c.log | head -8 | cut -c1-300 )
